@@ -129,7 +129,7 @@ func c09Parse(h HdrT, via int, val []byte) (*PFromBody, int, ErrorHdr, int) {
 //
 //	0 <U>             1 "Q" <U>;tag=T        2 tok <U>;p=v;tag=T
 //	3 U;tag=T (bare)  4 <U>;expires=D;q=0.D  5 <U>;lr          6 * (Contact only)
-//	7 <U>;tag="Q"     8 tok tok<U>
+//	7 <U>;tag="Q"     8 tok tok<U>   9-11 see below   12 <U>;a=D;bc;def=T;ghijklm=D;no=D;p;qrs
 func H_C09_shape(hh, via, shape, w int) {
 	h := HdrT(hh)
 	var x nb
@@ -292,6 +292,35 @@ func H_C09_shape(hh, via, shape, w int) {
 		x.lit(";x")
 		pe = len(x.b)
 		hasExp, hasTag = true, true
+	case 12: // other parameters whose names have the length of q / lr / tag / expires, with and without a value
+		x.lit("<")
+		us, ue = x.sym(1, 0)
+		x.lit(">;")
+		ps = len(x.b)
+		a1, b1 := x.sym(1, 1)
+		x.lit("=")
+		x.sym(1, 3)
+		x.lit(";")
+		a2, b2 := x.sym(2, 1)
+		x.lit(";")
+		a3, b3 := x.sym(3, 1)
+		x.lit("=")
+		x.sym(w, 1)
+		x.lit(";")
+		a4, b4 := x.sym(7, 1)
+		x.lit("=")
+		x.sym(1, 3)
+		x.lit(";")
+		a5, b5 := x.sym(2, 1)
+		x.lit("=")
+		x.sym(1, 3)
+		x.lit(";")
+		a6, b6 := x.sym(1, 1)
+		x.lit(";")
+		a7, b7 := x.sym(3, 1)
+		pe = len(x.b)
+		vAssume(!refEqFold(x.b[a1:b1], "q") && !refEqFold(x.b[a2:b2], "lr") && !refEqFold(x.b[a3:b3], "tag") && !refEqFold(x.b[a4:b4], "expires"))
+		vAssume(!refEqFold(x.b[a5:b5], "lr") && !refEqFold(x.b[a6:b6], "q") && !refEqFold(x.b[a7:b7], "tag"))
 	}
 	vend := len(x.b)
 	if pe > 0 {
@@ -338,6 +367,8 @@ func H_C09_shape(hh, via, shape, w int) {
 	if hasQ {
 		q := int(x.b[qs]-'0')*100 + int(x.b[qs+1]-'0')*10
 		vAssert("q-value", int(pf.Q) == q)
+	} else {
+		vAssert("no-q", pf.Q == 0)
 	}
 	vAssert("whole-value-span", int(pf.V.Offs) <= k+us && pfEnd(pf.V) >= k+vend && pfEnd(pf.V) <= k+len(x.b))
 	vReach("end")
@@ -417,9 +448,9 @@ func H_C09_hdrs(w int) {
 	d2s, d2e := x.sym(w, 3)
 	x.lit("\r\nExpires:")
 	d3s, d3e := x.sym(w, 3)
-	x.lit("\r\n\r\n")
+	x.lit("\r\nP-Asserted-Identity: <p>\r\nP-Asserted-Identity: \"q\" <r>, <s>\r\n\r\n")
 	var hl HdrLst
-	var hb [6]Hdr
+	var hb [8]Hdr
 	hl.Hdrs = hb[:]
 	var pv PHdrVals
 	var cb [1]PFromBody
@@ -435,6 +466,7 @@ func H_C09_hdrs(w int) {
 	e3, _ := refDec(x.b[d3s:d3e], refU32Max)
 	vAssert("value-count-includes-dropped", pv.Contacts.N == 3)
 	vAssert("header-count", pv.Contacts.HNo == 2)
+	vAssert("pai-value-and-header-count", pv.PAIs.N == 3 && pv.PAIs.HNo == 2)
 	m12 := vIte(e1 < e2, int(e2), int(e1))
 	vAssert("contacts-max-expires", int(pv.Contacts.MaxExpires) == m12)
 	// the value <b> has no expires parameter: it counts as 0 for the minimum
